@@ -16,6 +16,10 @@ def NormSt.line (s : NormSt) (toks : List String) : NormSt × Option String :=
     -- the unique id of a handler plays no part in the grouping (only in the name shown for the device)
     let cs := if caps = "-" then [] else (caps.splitOn ",").map tokNat
     ({ hs := s.hs ++ [⟨bytesToString (unhexBytes phys), (tokNat b, tokNat v, tokNat p, tokNat ver), bytesToString (unhexBytes name), cs⟩] }, none)
+  | ["h", phys, b, v, p, ver, name, caps, _uniq, _event] =>
+    -- nor does the name of its event node
+    let cs := if caps = "-" then [] else (caps.splitOn ",").map tokNat
+    ({ hs := s.hs ++ [⟨bytesToString (unhexBytes phys), (tokNat b, tokNat v, tokNat p, tokNat ver), bytesToString (unhexBytes name), cs⟩] }, none)
   | ["norm"] =>
     let gs := normalize s.hs
     let items := gs.map (fun g =>
